@@ -192,6 +192,12 @@ func evalUse(c Case) evid.Verdict {
 			cs.Apply("pac-good", "caddr-A")
 			cs.ClientAddr = "A"
 		}
+		switch c.N % 3 {
+		case 1:
+			cs.Apply("kvno-absent") // the optional kvno of the ticket's enc-part is not on the wire
+		case 2:
+			cs.Apply("start-absent") // (an explicit kvno 0 would be an optional field sent with a zero value: the statement's exception)
+		}
 		m, err := cs.Mint(c01.SamplePAC())
 		if err != nil {
 			return evid.Fail("harness", "mint: %v", err)
@@ -497,7 +503,7 @@ func TestProp(t *testing.T) {
 	r.Rule("use: Ticket, AP-REQ, AS-REP, TGS-REP, KRB-PRIV minted with the reference crypto for every etype, decoded, decrypted/verified by gokrb5, then re-marshalled: the bytes must be those received")
 	for _, ty := range []string{"use-ticket", "use-apreq", "use-asrep", "use-tgsrep", "use-krbpriv"} {
 		for _, et := range ref.ETypes {
-			for k := 0; k < r.N(2, 20); k++ {
+			for k := 0; k < r.N(6, 24); k++ {
 				c := Case{Type: ty, EType: et, Seed: r.Seed()*31 + uint64(k), N: k}
 				r.Count(fmt.Sprintf("%s|%d|%d", ty, et, k), "type:"+ty)
 				r.Sample(ty, c)
